@@ -251,8 +251,14 @@ func TestC19(t *testing.T) {
 	})
 
 	// (ii) packets under construction: every prefix of setter sequences
-	r.Rapid(t, "under-construction", vf.N(4500, 800000), func(t *rapid.T) {
+	r.Rapid(t, "under-construction", vf.N(12000, 800000), func(t *rapid.T) {
 		typ := uint8(rapid.IntRange(1, 15).Draw(t, "type"))
+		switch rapid.IntRange(0, 7).Draw(t, "richtype") {
+		case 0, 1:
+			typ = model.PUBLISH // the types with the most setters and renderings
+		case 2:
+			typ = model.CONNECT
+		}
 		ss := api.Setters(typ)
 		if len(ss) == 0 {
 			return
